@@ -34,6 +34,15 @@ fn twin_ok(def: &model::spec::DefSpec) -> bool {
     prepare(&t).is_ok()
 }
 
+fn why(e: &model::prep::PrepError) -> String {
+    match e {
+        model::prep::PrepError::Panic(m) => format!("derive panicked: {m}"),
+        model::prep::PrepError::Rejected(m, _) => format!("rejected: {m:?}"),
+        model::prep::PrepError::NoReference(m) => format!("no reference: {m}"),
+        model::prep::PrepError::Harness(m) => format!("harness: {m}"),
+    }
+}
+
 fn main() {
     let args: Vec<String> = std::env::args().collect();
     let mut seed = 0u64;
@@ -83,7 +92,21 @@ fn main() {
         n_core = 0;
         shards = 1;
     }
-    while defs.len() < n_core && tries < n_core * 20 {
+    if from_replay.is_none() {
+        // fixed members of the core family (emitter / graph paths that random definitions reach only now and then)
+        for sd in model::set::path_defs() {
+            match prepare(&sd.def) {
+                Ok(p) => {
+                    total_states += p.graph.states.len();
+                    let twin = twin_ok(&sd.def);
+                    defs.push(SubjectDef { twin, ..sd });
+                }
+                Err(e) => eprintln!("subjgen: fixed core definition not accepted by this tree, left out: {}", why(&e)),
+            }
+        }
+    }
+    let n_fixed = defs.len();
+    while defs.len() < n_core + n_fixed && tries < n_core * 20 {
         tries += 1;
         let def = strat.new_tree(&mut runner).unwrap().current();
         let Ok(p) = prepare(&def) else { continue };
@@ -101,6 +124,18 @@ fn main() {
     let cstrat = callback_defs();
     let mut got = 0;
     tries = 0;
+    if from_replay.is_none() {
+        // fixed members of the callbacks family: the whole documented table in every run
+        for sd in model::set::table_defs() {
+            match prepare(&sd.def) {
+                Ok(p) => {
+                    total_states += 3 * p.graph.states.len();
+                    defs.push(sd);
+                }
+                Err(e) => eprintln!("subjgen: fixed callbacks definition not accepted by this tree, left out: {}", why(&e)),
+            }
+        }
+    }
     while got < n_cb && tries < n_cb * 30 {
         tries += 1;
         let (def, has_value, error_cb) = cstrat.new_tree(&mut runner).unwrap().current();
